@@ -14,6 +14,9 @@ type TypeConverter struct {
 	imports      map[string]string // package path -> local name
 	usedNames    map[string]string // local name -> package path (for collision detection)
 	nameCounters map[string]int    // base name -> counter for generating unique names
+	// qualifiers are the package identifiers TypeToExpr created itself: they already carry the
+	// name of the import they refer to and must not be looked up in a source file's imports.
+	qualifiers map[*ast.Ident]struct{}
 }
 
 // NewTypeConverter creates a new TypeConverter for the given package.
@@ -23,6 +26,7 @@ func NewTypeConverter(currentPkg *types.Package) *TypeConverter {
 		imports:      make(map[string]string),
 		usedNames:    make(map[string]string),
 		nameCounters: make(map[string]int),
+		qualifiers:   make(map[*ast.Ident]struct{}),
 	}
 }
 
@@ -98,6 +102,9 @@ func (tc *TypeConverter) CollectExprImports(expr ast.Expr, sourceImports map[str
 		if !ok {
 			return true
 		}
+		if _, ok := tc.qualifiers[ident]; ok {
+			return true
+		}
 		// Look up the package name in source imports
 		pkgName := ident.Name
 		if importPath, exists := sourceImports[pkgName]; exists {
@@ -156,9 +163,10 @@ func (tc *TypeConverter) TypeToExpr(t types.Type) ast.Expr {
 			// External package - add import and generate SelectorExpr
 			pkgPath := obj.Pkg().Path()
 			pkgName := obj.Pkg().Name()
-			actualName := tc.AddImport(pkgPath, pkgName)
+			qualifier := ast.NewIdent(tc.AddImport(pkgPath, pkgName))
+			tc.qualifiers[qualifier] = struct{}{}
 			return &ast.SelectorExpr{
-				X:   ast.NewIdent(actualName),
+				X:   qualifier,
 				Sel: ast.NewIdent(obj.Name()),
 			}
 		}
